@@ -28,18 +28,36 @@ F1Body == Gr(<<Nd("Neg", <<>>, <<R("in", 2, 1, 0)>>, 1, <<>>, 0)>>, <<R("out", 2
 F2Body == Gr(<<Nd("Sub", <<>>, <<R("in", 3, 1, 0), R("in", 3, 2, 0)>>, 1, <<>>, 0),
                Nd("Add", <<>>, <<R("out", 3, 1, 1), R("in", 3, 1, 0)>>, 1, <<>>, 0)>>, <<R("out", 3, 2, 1)>>, <<>>)
 F3Body == Gr(<<Nd("Elu", <<<<"alpha", "@p">>>>, <<R("in", 4, 1, 0)>>, 1, <<>>, 0)>>, <<R("out", 4, 1, 1)>>, <<>>)
+\* F4(x) = ai.onnx.ml::Binarizer(x): a body that needs an operator set the main graph does not import
+\* F5(x) = Sub(F1(x), x): a function calling another function (present in every model, called or not)
+F4Body == Gr(<<Nd("ai.onnx.ml::Binarizer", <<>>, <<R("in", 5, 1, 0)>>, 1, <<>>, 0)>>, <<R("out", 5, 1, 1)>>, <<>>)
+F5Body == Gr(<<Nd("F1", <<>>, <<R("in", 6, 1, 0)>>, 1, <<>>, 1),
+               Nd("Sub", <<>>, <<R("out", 6, 1, 1), R("in", 6, 1, 0)>>, 1, <<>>, 0)>>, <<R("out", 6, 2, 1)>>, <<>>)
 
 Init ==
   /\ p = [nin |-> 3,
-          g |-> <<Gr(<<>>, <<>>, <<"c1", "c1", "s1">>), F1Body, F2Body, F3Body>>,
-          f |-> <<[body |-> 2, nin |-> 1], [body |-> 3, nin |-> 2], [body |-> 4, nin |-> 1]>>]
+          g |-> <<Gr(<<>>, <<>>, <<"c1", "c1", "s1", "b1">>), F1Body, F2Body, F3Body, F4Body, F5Body>>,
+          f |-> <<[body |-> 2, nin |-> 1], [body |-> 3, nin |-> 2], [body |-> 4, nin |-> 1],
+                  [body |-> 5, nin |-> 1], [body |-> 6, nin |-> 1]>>]
   /\ phase = "build"
 
 Main == p.g[1]
-NodeOuts == UNION {{R("out", 1, i, o) : o \in 1..Main.nodes[i].nout} : i \in DOMAIN Main.nodes}
+AllNodeOuts == UNION {{R("out", 1, i, o) : o \in 1..Main.nodes[i].nout} : i \in DOMAIN Main.nodes}
+\* typing: everything is a float tensor except the mask of Dropout (bool; never referenced) and the
+\* integer constants k1, k2 (same bytes and shape, different element types), which only Cast and graph
+\* outputs accept
+TypedTok == {"k1", "k2"}
+IsMask(r) == Main.nodes[r[3]].op = "Dropout" /\ r[4] = 2
+IsTyped(r) == Main.nodes[r[3]].op = "Constant" /\ Main.nodes[r[3]].attr[1][2] \in TypedTok
+TypedOuts == {r \in AllNodeOuts : IsTyped(r)}
+NodeOuts == {r \in AllNodeOuts : ~IsMask(r) /\ ~IsTyped(r)}
 Avail == {R("in", 1, 1, 0), R("in", 1, 2, 0), R("init", 1, 1, 0), R("init", 1, 2, 0)} \cup NodeOuts
 \* second operands: a small representative subset
 Second == {R("in", 1, 1, 0), R("init", 1, 2, 0)} \cup {r \in NodeOuts : r[3] = Len(Main.nodes)}
+Chan == R("init", 1, 4, 0)        \* per-channel parameter (rank 1): scale / bias / mean / variance of the normalisation operators
+\* the running statistics BatchNormalization returns are rank 1: usable everywhere (broadcast) except as the
+\* value a control-flow body passes through (both bodies of an If must agree on the rank)
+IsStat(r) == r[1] = "out" /\ Main.nodes[r[3]].op = "BatchNormalization" /\ r[4] > 1
 Cond == R("in", 1, 3, 0)      \* the boolean input, used by If only
 
 AddNode(n) == p' = [p EXCEPT !.g[1].nodes = Append(@, n)]
@@ -62,9 +80,18 @@ Build ==
      \/ \E x \in Avail, y \in Second : "Add" \in Ops /\ AddNode(Nd("Add", <<>>, <<x, y>>, 1, <<>>, 0))
      \/ \E x \in Avail, y \in Second : "Sub" \in Ops /\ AddNode(Nd("Sub", <<>>, <<x, y>>, 1, <<>>, 0))
      \/ \E c \in {"c1", "c2"} : "Constant" \in Ops /\ AddNode(Nd("Constant", <<<<"const", c>>>>, <<>>, 1, <<>>, 0))
-     \/ \E x \in Avail : "Split" \in Ops /\ AddNode(Nd("Split", <<>>, <<x>>, 2, <<>>, 0))
+     \/ \E c \in TypedTok : "TypedConst" \in Ops /\ AddNode(Nd("Constant", <<<<"const", c>>>>, <<>>, 1, <<>>, 0))
+     \/ \E x \in TypedOuts : "TypedConst" \in Ops /\ AddNode(Nd("Cast", <<<<"to", "1">>>>, <<x>>, 1, <<>>, 0))
+     \/ \E x \in Avail : "Split" \in Ops /\ AddNode(Nd("Split", <<<<"axis", "-1">>>>, <<x>>, 2, <<>>, 0))
+     \* operators with optional outputs: used or not by what follows
+     \/ \E x \in Avail : "Dropout" \in Ops /\ AddNode(Nd("Dropout", <<>>, <<x>>, 2, <<>>, 0))
+     \/ \E x \in Avail : "LayerNorm" \in Ops
+           /\ AddNode(Nd("LayerNormalization", <<>>, <<x, Chan>>, 3, <<>>, 0))
+     \/ \E x \in {R("in", 1, 1, 0), R("in", 1, 2, 0)}, training \in BOOLEAN : "BatchNorm" \in Ops
+           /\ AddNode(Nd("BatchNormalization", IF training THEN <<<<"training_mode", "1">>>> ELSE <<>>,
+                         <<x, Chan, Chan, Chan, Chan>>, IF training THEN 3 ELSE 1, <<>>, 0))
      \/ \E x \in Avail : "Clip" \in Ops /\ AddNode(Nd("Clip", <<>>, <<x, NoRef, R("init", 1, 3, 0)>>, 1, <<>>, 0))
-     \/ \E x \in Avail, y \in Second, tb \in {"Neg", "Identity", "Neg2"}, eb \in {"Add", "Constant"} :
+     \/ \E x \in {r \in Avail : ~IsStat(r)}, y \in Second, tb \in {"Neg", "Identity", "Neg2"}, eb \in {"Add", "Constant"} :
            /\ "If" \in Ops
            /\ AddIf(Nd(IF tb = "Neg2" THEN "Neg" ELSE tb, <<>>, <<x>>, 1, <<>>, 0),
                     IF eb = "Add" THEN Nd("Add", <<>>, <<x, y>>, 1, <<>>, 0) ELSE Nd("Constant", <<<<"const", "c1">>>>, <<>>, 1, <<>>, 0),
@@ -72,9 +99,11 @@ Build ==
      \/ \E x \in Avail : "Call" \in Ops /\ AddNode(Nd("F1", <<>>, <<x>>, 1, <<>>, 1))
      \/ \E x \in Avail, y \in Second : "Call" \in Ops /\ AddNode(Nd("F2", <<>>, <<x, y>>, 1, <<>>, 2))
      \/ \E x \in Avail, a \in {<<>>, <<<<"p", "2.0">>>>} : "Call" \in Ops /\ AddNode(Nd("F3", a, <<x>>, 1, <<>>, 3))
+     \/ \E x \in Avail : "Call2" \in Ops /\ AddNode(Nd("F4", <<>>, <<x>>, 1, <<>>, 4))
+     \/ \E x \in Avail : "Call2" \in Ops /\ AddNode(Nd("F5", <<>>, <<x>>, 1, <<>>, 5))
   /\ UNCHANGED phase
 
-OutChoices == NodeOuts \cup {R("in", 1, 1, 0), R("init", 1, 1, 0)}
+OutChoices == NodeOuts \cup TypedOuts \cup {R("in", 1, 1, 0), R("init", 1, 1, 0)}
 Finish ==
   /\ phase = "build"
   /\ Main.nodes # <<>>
@@ -89,7 +118,9 @@ Spec == Init /\ [][Next]_vars
 
 \* a deterministic structural checksum (TLC's output order and RandomElement depend on worker scheduling)
 OpCode(op) == CASE op = "Neg" -> 1 [] op = "Identity" -> 2 [] op = "Add" -> 3 [] op = "Sub" -> 4 [] op = "Constant" -> 5
-                [] op = "Split" -> 6 [] op = "Clip" -> 7 [] op = "If" -> 8 [] op = "F1" -> 9 [] op = "F2" -> 10 [] op = "F3" -> 11 [] OTHER -> 12
+                [] op = "Split" -> 6 [] op = "Clip" -> 7 [] op = "If" -> 8 [] op = "F1" -> 9 [] op = "F2" -> 10 [] op = "F3" -> 11
+                [] op = "Cast" -> 13 [] op = "Dropout" -> 14 [] op = "LayerNormalization" -> 15 [] op = "BatchNormalization" -> 16
+                [] op = "F4" -> 17 [] op = "F5" -> 18 [] OTHER -> 12
 RefCode(r) == (IF r[1] = "in" THEN 1 ELSE IF r[1] = "init" THEN 2 ELSE IF r[1] = "out" THEN 3 ELSE 0) + 5 * r[2] + 11 * r[3] + 17 * r[4]
 NodeCode(n) == OpCode(n.op) + 13 * Len(n.attr) + FoldLeft(LAMBDA a, r : (a * 7 + RefCode(r)) % 100003, 0, n.ins)
 GraphCode(g) == FoldLeft(LAMBDA a, r : (a * 3 + RefCode(r)) % 100003,
